@@ -15,7 +15,7 @@ from specs.inotify_read import IRWorld
 from specs import inotify_table as T
 
 PROP = "C08"
-GROUNDABLE = False
+GROUNDABLE = True
 BATTERY = "c08_battery.py"
 BUF = "watchdog/observers/inotify_buffer.py"
 
